@@ -6,6 +6,7 @@ BEHAVIOURAL = {
     "C01": "model_checking", "C02": "model_checking", "C03": "model_checking", "C04": "model_checking",
     "C05": "model_checking", "C06": "model_checking", "C09": "model_checking", "C13": "model_checking",
     "C14": "model_checking", "C16": "model_checking", "C08": "model_checking",
+    "C10": "exploration", "C11": "exploration",
 }
 
 
@@ -41,8 +42,18 @@ def baseline():
 
 def check(pid, tier):
     out = checks.Outcome(pid, tier)
+    if pid == "C10":
+        return check_c10(out, tier)
     if pid in BEHAVIOURAL:
         checks.behavioural(pid, tier, out)
+        if pid == "C11":
+            camp = checks.campaign(tier)
+            out.coverage["evaluations"] = sum(r["checked"] for r in camp["runs"])
+            out.coverage["distinct_nontrivial"] = len(camp["runs"])
+            out.coverage["rule"] = ("every executor run of the campaign (plain, ASan+UBSan, assertion-hook builds) is an observation channel: a sanitizer report / abort, "
+                                    "an assertion routed through the HFSM2_VERIF hook, or an allocation counted by the replaced global operator new during an API call "
+                                    "(quiet episodes) is a violation; walks queue beyond the request-queue capacity and append tasks beyond the task capacity, "
+                                    "and the post-state of rejected operations is compared with the specification")
         return out.finish(BEHAVIOURAL[pid])
     if pid == "C17":
         return check_c17(out, tier)
@@ -208,4 +219,37 @@ def check_c20(out, tier):
         samples=[dict(kind=x["kind"], w=x["w"], seed=x["seed"], first_outputs=x["out"][:2]) for x in r["records"][:3]],
         records=len(r["records"])))
     out.assumptions += ["TLC and the Bitwise community module are correct", "the published reference values quoted in engine/c20.py are correct"]
+    return out.finish("exploration")
+
+
+def check_c10(out, tier):
+    from . import c10
+    checks.behavioural("C10", tier, out)
+    r = c10.run()
+    findings = [f for f in checks.load_findings() if f["property"] == "C10" and f["status"] == "open"]
+    d = os.path.join(tlc.CACHE, "replays")
+    os.makedirs(d, exist_ok=True)
+    path = os.path.join(d, "C10-builtin-rng.json")
+    json.dump(r["records"], open(path, "w"))
+    if r["checked"] != r["expected_steps"]:
+        out.machinery.append("TLC walked %d of %d draws: %s" % (r["checked"], r["expected_steps"], r["tail"][-300:]))
+    copy_hits = 0
+    for df in r["diffs"]:
+        if '"copy"' in df and any(f["id"] == "D11" for f in findings):
+            copy_hits += 1
+        else:
+            out.violations.append(dict(replay=path, what="built-in generator: choice differs from the reference stream (record, part, fill, position, expected, observed): " + df[:200]))
+    out.known = [k for k in out.known if not k.startswith("D11")]
+    for f in findings:
+        if f["id"] == "D11":
+            out.known.append("D11 %s (witnessed by %d choices of copies in this run)" % (f["what"][:200], copy_hits))
+    camp = checks.campaign(tier)
+    out.coverage["evaluations"] = sum(r2["checked"] for r2 in camp["runs"]) + 5 * r["expected_steps"]
+    out.coverage["distinct_nontrivial"] = sum(1 for r2 in camp["runs"] for f in r2["files"] if f.endswith("copy.ndjson")) + 5
+    out.coverage["rule"] = ("(a) every episode of the campaign is constructed by placement-new into storage pre-filled with one of 0x00/0xFF/0xA5/0x01 and judged "
+                            "against the one deterministic specification; (b) copy walks: an instance is copy-constructed at a random point and original and copy are "
+                            "driven identically, the copy's full observable state must equal the source's; (c) built-in generator: five instances constructed in "
+                            "differently filled storage, copied and the original destroyed; every random choice is compared with the stream TLC derives from "
+                            "spec/Prng.tla")
+    out.coverage["builtin_rng_records"] = r["records"]
     return out.finish("exploration")
